@@ -538,3 +538,6 @@ Proof.
   - split; [intros _; split; assumption | intros K; rewrite P in K; lia].
   - split; [intros K; lia | intros _; split; [lia|]]. rewrite L. replace (Z.max 0 (hpos e')) with (hpos e') by lia. apply entry_hist. exact Hh.
 Qed.
+
+(* the keys of the undo logs a state holds (-1 = the line being entered, k >= 0 = history line k) *)
+Definition keys_of (e : ed) : list Z := map fst (lines e).
